@@ -57,10 +57,14 @@ def call(obj, dm, item=None):
         return e
 
 
-def build_obj(spec, rng_seed):
+def build_obj(spec, rng_seed, twin=False):
+    """twin=True: an object with EQUAL parameters written differently where that is possible (a conditions
+    dictionary with the same items in the reverse key order)."""
     import random
     rng = random.Random(rng_seed)
     kind = spec["kind"]
+    if twin and kind == "tf" and len(spec["cfg"].get("conditions") or []) >= 2:
+        return T.build(spec["cfg"], conditions=list(reversed(spec["cfg"]["conditions"])))
     if kind == "class":
         cls = c16.all_method_classes()[spec["qual"]]
         return c16.make_instance(rng, spec["qual"], cls)
@@ -254,7 +258,7 @@ def run_seq(case):
     I.set_salt([case["spec"], case["oseed"]])
     try:
         obj = build_obj(case["spec"], case["oseed"])
-        twin = build_obj(case["spec"], case["oseed"])
+        twin = build_obj(case["spec"], case["oseed"], twin=True)
         if obj is None:
             return {"skip": True}
         can0 = canary()
